@@ -27,7 +27,7 @@ SPEC = {
                    "PyMatterSim.static.gr:gr.getresults", "PyMatterSim.static.sq:sq.getresults", "PyMatterSim.static.boo:boo_2d.lthorder",
                    "PyMatterSim.static.boo:boo_3d.ql_Ql", "PyMatterSim.dynamic.dynamics:Dynamics.relaxation",
                    "PyMatterSim.utils.coarse_graining:gaussian_blurring", "PyMatterSim.static.vector:vector_decomposition_sq"],
-    "floors": {"purity": 20000, "repeat": 300, "files": 400, "instance_reuse": 30, "fresh_process_replay": 40},
+    "floors": {"purity": 20000, "repeat": 300, "files": 400, "instance_reuse": 30, "instance_history": 30, "fresh_process_replay": 40},
     "insitu": (),
     "rule": ("random programs (12-20 steps, a third of them repeats of an earlier step) over ~60 public entry points of static / "
              "dynamic / neighbors / utils on one shared pool: 2-D and 3-D wrapped + unwrapped trajectories (3-4 frames, 16-30 "
@@ -485,7 +485,7 @@ def recipes():
         nl = nb_file(S, 3, "vor" if wts else "nn")
         wf = S.files[(3, "vorw")] if wts else None
 
-        def call(b, o):
+        def call(b, o, meth=meth):
             if meth == "qlm_Qlm":
                 return list(b.qlm_Qlm()), {}
             if meth == "ql_Ql":
@@ -522,7 +522,8 @@ def recipes():
         def thunk(o):
             return call(m_boo.boo_3d(sn, l, nl, wf, ppp, 30), o)
         return dict(name="boo_3d." + meth, par=(l, cg, wts, out, ext), thunk=thunk, call=call,
-                    make=lambda: m_boo.boo_3d(sn, l, nl, wf, ppp, 30))
+                    make=lambda: m_boo.boo_3d(sn, l, nl, wf, ppp, 30),
+                    methods=["qlm_Qlm", "ql_Ql", "sij_ql_Ql", "w_W_cap", "spatial_corr", "time_corr"])
 
     @reg
     def r_boo2(S, rng):
@@ -538,7 +539,7 @@ def recipes():
         nl = nb_file(S, 2, "vor" if wts else "nn")
         wf = S.files[(2, "vorw")] if wts else ""
 
-        def call(b, o):
+        def call(b, o, meth=meth):
             if meth == "lthorder":
                 p = J(o, "phi.npy") if out else ""
                 r = b.lthorder(p)
@@ -557,7 +558,8 @@ def recipes():
 
         def thunk(o):
             return call(m_boo.boo_2d(sn, l, nl, wf, ppp, 10), o)
-        return dict(name="boo_2d." + meth, par=(l, wts, out, avc), thunk=thunk, call=call, make=lambda: m_boo.boo_2d(sn, l, nl, wf, ppp, 10))
+        return dict(name="boo_2d." + meth, par=(l, wts, out, avc), thunk=thunk, call=call, make=lambda: m_boo.boo_2d(sn, l, nl, wf, ppp, 10),
+                    methods=["lthorder", "time_average", "spatial_corr", "time_corr"])
 
     @reg
     def r_tetra(S, rng):
@@ -592,7 +594,7 @@ def recipes():
         mean_norm = bool(rng.random() < 0.5)
         sn, ppp, sig = S.snap(d), S.pool[f"ppp{d}"], S.pool[f"s2sig{d}"]
 
-        def call(b, o):
+        def call(b, o, meth=meth):
             if meth == "particle_s2":
                 p = J(o, "s2.npy") if out else ""
                 r = b.particle_s2(False, p)
@@ -610,7 +612,8 @@ def recipes():
 
         def thunk(o):
             return call(m_s2.S2(sn, sig, ppp, 0.05, 40), o)
-        return dict(name="S2." + meth, par=(d, out, mean_norm), thunk=thunk, call=call, make=lambda: m_s2.S2(sn, sig, ppp, 0.05, 40))
+        return dict(name="S2." + meth, par=(d, out, mean_norm), thunk=thunk, call=call, make=lambda: m_s2.S2(sn, sig, ppp, 0.05, 40),
+                    methods=["particle_s2", "spatial_corr", "time_corr"])
 
     @reg
     def r_hessian(S, rng):
@@ -693,20 +696,23 @@ def recipes():
 
     @reg
     def r_nematic(S, rng):
-        meth = str(rng.choice(["tensor", "tensor", "spatial_corr", "time_corr"]))
+        meth = str(rng.choice(["tensor", "tensor", "tensor_other", "spatial_corr", "time_corr"]))
         use_nl = rng.random() < 0.5
         eig = bool(rng.random() < 0.5)
         out = rng.random() < 0.6
         ori, pos, ppp = S.pool["orient2"], S.snap(2), S.pool["ppp2"]
         nl = nb_file(S, 2, "nn") if use_nl else ""
 
-        def thunk(o):
-            b = m_nem.NematicOrder(ori, pos)
+        def call(b, o, meth=meth):
             base = J(o, "nem")
-            r = b.tensor(2, nl, 30, eig, base)
-            if meth == "tensor":
-                return [r, np.asarray(b.QIJ)], {base + (".eigval.npy" if eig else ".Qtrace.npy"): r,
+            if meth in ("tensor", "tensor_other"):
+                e = eig if meth == "tensor" else (not eig)
+                r = b.tensor(2, nl, 30, e, base)
+                return [r, np.asarray(b.QIJ)], {base + (".eigval.npy" if e else ".Qtrace.npy"): r,
                                                 base + (".QIJ_cg.npy" if use_nl else ".QIJ_raw.npy"): np.asarray(b.QIJ)}
+            if getattr(b, "_vmon_done", None) is None:
+                b.tensor(2, nl, 30, eig, base)        # the correlation methods work on the stored tensor
+                b._vmon_done = True
             if meth == "spatial_corr":
                 p = J(o, "gq.csv") if out else ""
                 r2 = b.spatial_corr(0.1, ppp, p)
@@ -714,7 +720,11 @@ def recipes():
             p = J(o, "tq.csv") if out else ""
             r2 = b.time_corr(0.002, p)
             return r2, ({p: r2.values} if out else {})
-        return dict(name="NematicOrder." + meth, par=(use_nl, eig, out), thunk=thunk)
+
+        def thunk(o):
+            return call(m_nem.NematicOrder(ori, pos), o)
+        return dict(name="NematicOrder." + meth.replace("_other", ""), par=(meth, use_nl, eig, out), thunk=thunk, call=call,
+                    make=lambda: m_nem.NematicOrder(ori, pos), methods=["tensor", "tensor_other", "spatial_corr", "time_corr"])
 
     @reg
     def r_dynamics(S, rng):
@@ -905,7 +915,9 @@ def plan(S, rng, R, notes=None):
             if notes is not None:
                 notes.append(f"recipe {rec.__name__} could not be prepared: {type(e).__name__}: {e}")
             continue
-        step["reuse"] = bool("make" in step and rng.random() < 0.5)
+        step["reuse"] = bool("make" in step and rng.random() < 0.6)
+        # a call history on ONE object: 1-3 other methods first, then the step's own method
+        step["before"] = [str(m) for m in rng.choice(step["methods"], size=int(rng.integers(1, 4)))] if "methods" in step else []
         news.append(len(prog))
         prog.append(("new", step))
     return prog
@@ -940,7 +952,8 @@ def program(ctx, rng, wd, R, pno, fresh_replay=False):
                  sample={"step": step["name"], "parameters": step["par"], "program": pno, "position": k})
         if ok:
             results[k] = res
-        # instance reuse: the same method twice on ONE instance must agree with a fresh instance
+        # instance reuse: the same method twice on ONE instance must agree with a fresh instance; and after a history of OTHER
+        # method calls on one instance the method must still return what a fresh instance returns
         if ok and step["reuse"]:
             try:
                 inst = step["make"]()
@@ -951,6 +964,17 @@ def program(ctx, rng, wd, R, pno, fresh_replay=False):
                 ctx.check("instance_reuse", same(r1, res) and same(r2, res), f"{step['name']}/instance_reuse",
                           lambda: f"{step['name']} {step['par']}: calling the method twice on one instance differs from a fresh instance: "
                                   f"{describe_diff(res, r1 if not same(r1, res) else r2)}", {"step": step["name"], "par": step["par"]})
+                inst = step["make"]()
+                for q, m in enumerate(step["before"]):
+                    oq = os.path.join(sd, f"o{k}h{q}")
+                    os.makedirs(oq)
+                    step["call"](inst, oq, m)
+                oq = os.path.join(sd, f"o{k}hz")
+                os.makedirs(oq)
+                r3 = canon(step["call"](inst, oq)[0])
+                ctx.check("instance_history", same(r3, res), f"{step['name']}/instance_history",
+                          lambda: f"{step['name']} {step['par']}: after calling {step['before']} on the same object the method returns something else "
+                                  f"than on a fresh object: {describe_diff(res, r3)}", {"step": step["name"], "par": step["par"], "before": step["before"]})
             except Exception as e:  # noqa: BLE001
                 ctx.violation(f"{step['name']}/instance_reuse/raises:{type(e).__name__}", f"{type(e).__name__}: {e}", {"par": step["par"]}, "exceptions")
     drop_dir(sd)
